@@ -173,6 +173,8 @@ mut("C07", "weighted-jacobian-abs-product", E + "FEM/_group_elem.py", "        w
 mut("C19", "flow-bound-before-step", E + "Models/InElastic/_behavior.py", "            u = self.__Bound(u - np.linalg.solve(J, r[..., None])[..., 0])\n", "            u = self.__Bound(u) - np.linalg.solve(J, r[..., None])[..., 0]\n", "R19.18")
 mut("C16", "stress-read-virgin-state", E + "Models/InElastic/_behavior.py", "        eps6_e_pg = self.Compute_strain_6d(eps_e_pg, z_e_pg, 0.0)\n        sig6_e_pg = self.Compute_sigma(eps6_e_pg, z_e_pg)\n        if self.dim == 3:", "        eps6_e_pg = self.Compute_strain_6d(eps_e_pg, None, 0.0)\n        sig6_e_pg = self.Compute_sigma(eps6_e_pg, z_e_pg)\n        if self.dim == 3:", "R16.16")
 mut("C13", "weakforms-skip-unused-forms", E + "Simulations/_weakforms.py", "        computeM = weakForms.computeM\n        if computeM is None:\n", "        computeM = weakForms.computeM\n        if computeM is None or self.algo not in AlgoType.Get_Hyperbolic_Types():\n", "R13.3")
+mut("C03", "assembly-shares-cached-pattern", E + "Simulations/_simu.py", "            (csr_data, indices.copy(), indptr.copy()), shape=shape\n", "            (csr_data, indices, indptr), shape=shape\n", "R3.12")
+same("C03", "assembly-copies-pattern-np-array", E + "Simulations/_simu.py", "            (csr_data, indices.copy(), indptr.copy()), shape=shape\n", "            (csr_data, np.array(indices), np.array(indptr)), shape=shape\n")
 mut("C04", "lagrange-row-per-entry", E + "Simulations/Solvers.py", "    dofs_Dirichlet, inverse = np.unique(dofs_Dirichlet, return_inverse=True)\n    summed_values = np.zeros(dofs_Dirichlet.size, dtype=values_Dirichlet.dtype)\n    np.add.at(summed_values, inverse, values_Dirichlet)\n    values_Dirichlet = summed_values\n", "", "__Solver_2")
 mut("C04", "lagrange-last-value-wins", E + "Simulations/Solvers.py", "    np.add.at(summed_values, inverse, values_Dirichlet)\n", "    summed_values[inverse] = values_Dirichlet\n", "__Solver_2")
 mut("C04", "lagrange-dim-raw-count", E + "Simulations/_simu.py", "            nBc += np.unique(self.Bc_dofs_Dirichlet(problemType)).size", "            nBc += len(self.Bc_dofs_Dirichlet(problemType))", "_Bc_Lagrange_dim")
